@@ -339,6 +339,12 @@ def run(ctx):
         for ci in range(ncase):
             nrows = rng.randint(1, 6)
             S = random_sufficient_set(system, rng)
+            if ci % 8 == 6:
+                # the whole upper triangle written out (vanishing components as zero columns): nothing to fill in,
+                # but the vanishing components must still be omitted
+                S = list(range(NSYM))
+                rng.shuffle(S)
+                ctx.count("all 21 components supplied")
             cols, tensors = make_table(system, rng, S, nrows, with_v=rng.random() < 0.7)
             int_table = (ci % 4 == 1)
             if int_table:
